@@ -612,6 +612,58 @@ func buildSchema(root Node, env Env, keysOptional bool, mesh bool) (*jschema.Sch
 	return buildSchemaL(root, env, keysOptional, mesh, houseLayout)
 }
 
+// rootOnly != nil (with mesh): the root itself is given only the types named in rootOnly (the ones its own text references);
+// whatever those refer to has to reach the root through them.
+var rootOnly []string
+
+// chainOnly (with mesh): every schema - the root and each type - is given exactly the types its own text names;
+// the library has to find the rest through them (a type known to an added type is known to the root).
+var chainOnly bool
+
+func rvRefs(v RV, add func(string)) {
+	if strings.HasPrefix(v.S, "@") {
+		add(v.S)
+	}
+	for _, it := range v.Items {
+		rvRefs(it, add)
+	}
+	for _, r := range v.Rules {
+		rvRefs(r.V, add)
+	}
+}
+
+// nodeRefs: the user type names a schema text mentions (type shortcuts, key shortcuts, type / or / allOf / additionalProperties rules).
+func nodeRefs(n Node) []string {
+	var out []string
+	add := func(s string) {
+		if !containsStr(out, s) {
+			out = append(out, s)
+		}
+	}
+	var walk func(n Node)
+	walk = func(n Node) {
+		for _, nm := range n.Names {
+			if strings.HasPrefix(nm, "@") {
+				add(nm)
+			}
+		}
+		for _, r := range n.Rules {
+			rvRefs(r.V, add)
+		}
+		for _, p := range n.Props {
+			if p.Kt != "" {
+				add(p.Kt)
+			}
+			walk(p.N)
+		}
+		for _, it := range n.Items {
+			walk(it)
+		}
+	}
+	walk(n)
+	return out
+}
+
 func buildSchemaL(root Node, env Env, keysOptional bool, mesh bool, l Layout) (*jschema.Schema, Rendered, error) {
 	var opts []jschema.Option
 	if keysOptional {
@@ -644,12 +696,33 @@ func buildSchemaL(root Node, env Env, keysOptional bool, mesh bool, l Layout) (*
 			break
 		}
 		for i, t := range env.Types {
+			if k == 0 && mesh && rootOnly != nil && !containsStr(rootOnly, t.Name) {
+				continue
+			}
+			if mesh && chainOnly {
+				body := root
+				if k > 0 {
+					body = env.Types[k-1].N
+				}
+				if !containsStr(nodeRefs(body), t.Name) {
+					continue
+				}
+			}
 			if err := target.AddType(t.Name, types[i]); err != nil {
 				return nil, rr, err
 			}
 		}
 	}
 	return s, rr, nil
+}
+
+func containsStr(a []string, x string) bool {
+	for _, y := range a {
+		if y == x {
+			return true
+		}
+	}
+	return false
 }
 
 func validateValue(s *jschema.Schema, v Value) Outcome {
